@@ -483,6 +483,55 @@ theorem processMessage_noMatch_run (env : PEnv) (orc : EvalOracles) (expr : Expr
   rw [he] at this
   exact this
 
+/-- `processMessage_noMatch_run` for a rule tree that asks the operating system nothing, in terms of the pure evaluator:
+only the calls of parsing, no `fork`. -/
+theorem processMessage_noMatch_run_pure (env : PEnv) (orc : EvalOracles) (expr : Expr) (md : Maildir) (name : Bytes)
+    (st : MainSt) (d : Handle) (content p n : Bytes) (mf : MFlags)
+    (hd : md.dirH = some d) (hf : st.files.get md.path name = some content)
+    (hp : pathjoin PATH_MAX md.path name = some p) (hn : strlcpyFits NAME_MAX1 name = some n)
+    (hmf : flagsParse n = some mf) (hfree : asksFree expr = true)
+    (hno :
+      (eval (msgEnv env orc p) (parseMessage content) expr 0 (parseMessage content) { ml := [], flags := mf }).1 = .nomatch ∨
+      (eval (msgEnv env orc p) (parseMessage content) expr 0 (parseMessage content) { ml := [], flags := mf }).1 = .error ∨
+      ((eval (msgEnv env orc p) (parseMessage content) expr 0 (parseMessage content) { ml := [], flags := mf }).1 = .match ∧
+       (matchesInterpolate (msgEnv env orc p)
+          (eval (msgEnv env orc p) (parseMessage content) expr 0 (parseMessage content) { ml := [], flags := mf }).2.ml
+          (partMsg (parseMessage content) ((getAttachments (parseMessage content)).getD []))).isNone = true))
+    (orcl : Nat → Call → Res) :
+    (∀ x ∈ (runOracle orcl (processMessage env orc expr md name st) 0 []).2,
+      ((∃ nm, x.1 = .openRd d nm) ∨ (∃ fd, x.1 = .read fd) ∨ ∃ fd, x.1 = .close fd) ∧
+        x.1.mutating = false ∧ x.1 ≠ .fork) ∧
+    (∃ L, (runOracle orcl (processMessage env orc expr md name st) 0 []).2 =
+        (runOracle orcl (messageParseP d md.path name content) 0 []).2 ++ L ∧ ∀ x ∈ L, ∃ fd, x.1 = .close fd) ∧
+    (runOracle orcl (processMessage env orc expr md name st) 0 []).1 =
+      (if (runOracle orcl (messageParseP d md.path name content) 0 []).1.isNone ||
+          (eval (msgEnv env orc p) (parseMessage content) expr 0 (parseMessage content) { ml := [], flags := mf }).1 != .nomatch
+        then { st with error := true } else st, md) := by
+  have hev : (Own.runO orcl (evalP (msgEnv env orc p) orc.timeFormat expr (parseMessage content) mf)
+      (Own.runO orcl (messageParseP d md.path name content) 0).2.2).1 =
+      eval (msgEnv env orc p) (parseMessage content) expr 0 (parseMessage content) { ml := [], flags := mf } := by
+    rw [← noSys_msgEnv, evalP_asksFree (msgEnv env orc p) orc.timeFormat expr hfree]
+    rfl
+  obtain ⟨h1, ⟨E, L, h2, hE, hL⟩, h3⟩ :=
+    processMessage_noMatch_run env orc expr md name st d content p n mf hd hf hp hn hmf orcl _ hev hno
+  have hE0 : E = [] := by
+    apply List.eq_nil_iff_forall_not_mem.2
+    intro x hx
+    have := (ParseEvalCall.of_asksFree (d := d) hfree (.inr (hE x hx)))
+    have hq := (hE x hx).evalCall
+    -- an evaluation call of a tree that asks nothing does not exist
+    have hf' := hfree
+    simp only [asksFree, Bool.and_eq_true, Bool.not_eq_true'] at hf'
+    rcases hE x hx with ⟨hc, _⟩ | ⟨hs | hs, _⟩
+    · rw [hf'.1.1] at hc; cases hc
+    · rw [hf'.1.2] at hs; cases hs
+    · rw [hf'.2] at hs; cases hs
+  subst hE0
+  refine ⟨fun x hx => ?_, ⟨L, by simpa using h2, hL⟩, h3⟩
+  have hpc := ParseEvalCall.of_asksFree hfree (h1 x hx).1
+  exact ⟨hpc, hpc.quiet⟩
+
+
 /-- The two degenerate cases: a maildir that is not open, and a name the model has no content for. -/
 theorem processMessage_degenerate_run (env : PEnv) (orc : EvalOracles) (expr : Expr) (md : Maildir) (name : Bytes)
     (st : MainSt) (orcl : Nat → Call → Res) (i : Nat) (tr : List (Call × Res)) :
